@@ -347,10 +347,42 @@ var packCorpus = []*PCase{symlinkedComponentCase("BB", true), symlinkedComponent
 	derefRuleCase("l/inner\n"), derefRuleCase("inner\n"), derefRuleCase("l/sub/\n"), derefRuleCase("/l/*\n!/l/other\n"), derefRuleCase("l/\n!l/sub/deep\n"),
 }
 
+// the rule file content Pack reads for the case's source directory ("" = none readable: defaults)
+func packRuleFile(c *PCase) string {
+	byPath := map[string]PNode{}
+	for _, n := range c.Nodes {
+		byPath[n.Path] = n
+	}
+	n, ok := byPath["p/src/.terraformignore"]
+	for hops := 0; ok && n.Kind == "l" && hops < 4; hops++ {
+		if strings.HasPrefix(n.Data, "/") || strings.HasPrefix(n.Data, "@") || strings.Contains(n.Data, "..") {
+			return ""
+		}
+		n, ok = byPath["p/src/"+n.Data]
+	}
+	if ok && n.Kind == "f" {
+		return n.Data
+	}
+	return ""
+}
+
 func genPCase(r *Rng) *PCase {
 	c := &PCase{Nodes: genTree(r), Src: "@ARENA@/p/src", Deref: r.Chance(40), Ignore: r.Chance(50)}
 	if c.Ignore && r.Chance(60) {
-		c.Nodes = append(c.Nodes, PNode{Path: "p/src/.terraformignore", Kind: "f", Perm: 0644, Mtime: 1400000000e9, Data: r.Pick(pRuleFiles)})
+		switch x := r.Intn(100); {
+		case x < 88:
+			c.Nodes = append(c.Nodes, PNode{Path: "p/src/.terraformignore", Kind: "f", Perm: 0644, Mtime: 1400000000e9, Data: r.Pick(pRuleFiles)})
+		case x < 92:
+			// a rule file that cannot be read as a file: a directory of that name (default rules apply)
+			c.Nodes = append(c.Nodes, PNode{Path: "p/src/.terraformignore", Kind: "d", Perm: 0755, Mtime: 1400000000e9})
+		case x < 96:
+			// ... a dangling link of that name
+			c.Nodes = append(c.Nodes, PNode{Path: "p/src/.terraformignore", Kind: "l", Data: "no-such-rules"})
+		default:
+			// ... a link to a rule file elsewhere in the tree
+			c.Nodes = append(c.Nodes, PNode{Path: "p/src/rules.txt", Kind: "f", Perm: 0644, Mtime: 1400000000e9, Data: r.Pick(pRuleFiles)},
+				PNode{Path: "p/src/.terraformignore", Kind: "l", Data: "rules.txt"})
+		}
 	}
 	if r.Chance(8) {
 		c.Allow = []string{r.Pick([]string{"../ext", "@ARENA@/p/ext/file", "../src-evil", "../outside.txt"})}
@@ -596,12 +628,7 @@ func judgePack(rep *Report, c *PCase, arena, src string, allow []string, out pac
 		// are entries excluded by ignore rules" (seed C02-d)
 		var keepOnly func(rel string, isDir bool) bool
 		if c.Ignore {
-			rulefile := ""
-			for _, n := range c.Nodes {
-				if n.Path == "p/src/.terraformignore" && n.Kind == "f" {
-					rulefile = n.Data
-				}
-			}
+			rulefile := packRuleFile(c)
 			orules := oParse(rulefile)
 			keepOnly = func(rel string, isDir bool) bool {
 				return !isDir && !oExcluded(orules, rel) && packPruneSignature(orules, rel) == ""
@@ -678,12 +705,7 @@ func judgePack(rep *Report, c *PCase, arena, src string, allow []string, out pac
 	})
 	// ---- C03 (secrecy, also with dereferencing): no entry whose own archive path is excluded ----
 	if c.Ignore && c.Deref && len(allow) == 0 {
-		rulefile := ""
-		for _, n := range c.Nodes {
-			if n.Path == "p/src/.terraformignore" && n.Kind == "f" {
-				rulefile = n.Data
-			}
-		}
+		rulefile := packRuleFile(c)
 		orules := oParse(rulefile)
 		for _, e := range out.entries {
 			name := strings.TrimSuffix(e.Name, "/")
@@ -694,15 +716,7 @@ func judgePack(rep *Report, c *PCase, arena, src string, allow []string, out pac
 	}
 	// ---- C03: with ignore processing, a file ships iff its own path is not excluded ----
 	if !c.Deref && len(allow) == 0 {
-		rulefile := ""
-		hasRuleFile := false
-		for _, n := range c.Nodes {
-			if n.Path == "p/src/.terraformignore" && n.Kind == "f" {
-				rulefile = n.Data
-				hasRuleFile = true
-			}
-		}
-		_ = hasRuleFile
+		rulefile := packRuleFile(c)
 		orules := oParse(rulefile)
 		shipped := map[string]bool{}
 		for _, e := range out.entries {
